@@ -27,3 +27,11 @@ finally:
     # files added by the patch
     subprocess.run(["git", "-C", "/repo", "clean", "-fdq", "--", "src", "tests"])
 print(json.dumps(res))
+# record the outcome next to the seeded change
+ap = os.path.abspath(patch)
+sd = os.path.join(ROOT, "seeded")
+if ap.startswith(sd + os.sep):
+    head = subprocess.run(["git", "-C", "/repo", "rev-parse", "--short", "HEAD"], capture_output=True).stdout.decode().strip()
+    with open(os.path.join(sd, "results.jsonl"), "a") as f:
+        f.write(json.dumps({"seeded": os.path.relpath(os.path.dirname(ap), sd), "repo_head": head,
+                            "tier": os.environ.get("VERIF_TIER", "quick"), "results": res}) + "\n")
